@@ -914,6 +914,12 @@ func (fc *FnCtx) modelCall(st *State, e *ast.CallExpr, fn *types.Func, full stri
 		fc.declareFun("fge", []string{SFlt, SFlt}, SBool)
 		fc.declareFun("flt", []string{SFlt, SFlt}, SBool)
 		fc.declareFun("fle", []string{SFlt, SFlt}, SBool)
+		// its integer part is exact over the whole int64 range (the library computes the integer and the
+		// fractional part separately), so converting it back to an integer truncates the exact quotient
+		unit := map[string]string{"Hours": "3600000000000", "Minutes": "60000000000", "Seconds": "1000000000"}[fn.Name()]
+		fc.declareFun("flt2int", []string{SFlt}, SInt)
+		fc.assumeGlobal(b("(= (flt2int %s) (tdiv %s %s))", r.S, recv.S, unit))
+		fc.assumptions["float: the integer part of Duration.Hours/Minutes/Seconds is the exact integer quotient (the time package computes integer and fractional parts separately)"] = true
 		fc.assumeGlobal(b("(= (fgt %s %s) (> %s 0))", r.S, zero.S, recv.S))
 		fc.assumeGlobal(b("(= (fge %s %s) (>= %s 0))", r.S, zero.S, recv.S))
 		fc.assumeGlobal(b("(= (flt %s %s) (< %s 0))", r.S, zero.S, recv.S))
